@@ -1627,33 +1627,31 @@ def _ordered_merge(left: DataFrame,
     # perform the mappings
     # ====================
 
+    # a side whose keys are unique and which drives the join ('left' for how='left', 'right'
+    # for how='right') has no map field: its rows appear once each, in order
     left_map = dest['_left_map'] if '_left_map' in dest else None
-    right_map = dest['_right_map']
+    right_map = dest['_right_map'] if '_right_map' in dest else None
 
-    if left_map is None:
-        for k in left_fields_to_map:
-            dest_k = k
-            if k in dest:
-                dest_k += left_suffix
-            dest_f = left[k].create_like(dest, dest_k)
+    for k in left_fields_to_map:
+        dest_k = k
+        if k in dest:
+            dest_k += left_suffix
+        dest_f = left[k].create_like(dest, dest_k)
+        if left_map is None:
             ops.chunked_copy(left[k], dest_f, chunk_size)
-    else:
-        for k in left_fields_to_map:
-            dest_k = k
-            if k in dest:
-                dest_k += left_suffix
-            dest_f = left[k].create_like(dest, dest_k)
-            if left[k].indexed:
-                ops.ordered_map_valid_indexed_stream(left[k], left_map, dest_f)
-            else:
-                ops.ordered_map_valid_stream(left[k], left_map, dest_f)
+        elif left[k].indexed:
+            ops.ordered_map_valid_indexed_stream(left[k], left_map, dest_f, invalid)
+        else:
+            ops.ordered_map_valid_stream(left[k], left_map, dest_f, invalid)
 
     for k in right_fields_to_map:
         dest_k = k
         if k in dest:
             dest_k += right_suffix
         dest_f = right[k].create_like(dest, dest_k)
-        if right[k].indexed:
+        if right_map is None:
+            ops.chunked_copy(right[k], dest_f, chunk_size)
+        elif right[k].indexed:
             ops.ordered_map_valid_indexed_stream(right[k], right_map, dest_f, invalid)
         else:
             ops.ordered_map_valid_stream(right[k], right_map, dest_f, invalid)
